@@ -1044,6 +1044,29 @@ FUNCS = [
          verbatim=[("let mut cn = dst.as_os_str().to_owned();", "let mut cn := p"),
                    ('cn.push(format!(".conflict-{}", super::wire::short_hash(&hash)));', 'cn := cn ++ ".conflict-".toList ++ short'),
                    ('alt.push(format!("-{n}"));', "alt := alt ++ '-' :: Copia.Meta.decimal n")]),
+    dict(group="hubput", file="src/bin/copia/serve.rs", name="handle_get", sig=None,
+         lean="def handleGet (hashOf : List Chunk → Hash) (safe : Bool) (file : Option (List Chunk)) (is_file : Bool) :\n"
+              "    List GCall × Copia.Hub.Reply Hash := Id.run do\n"
+              "  -- world: the calls made on the ONE handle `f` (labels of `HubGet.soloGet`); `file` is what the name points to at `File::open`\n"
+              "  -- (lengths counted in chunks), `is_file` what `metadata()` says of it\n"
+              "  let mut calls : List GCall := []",
+         strings_plain=True,
+         paths={"Response::Error": "Copia.Hub.Reply.error"},
+         calls={"write_frame": lambda a: f"(calls, {a[1]})"},
+         methods={"into": lambda r, a: r},
+         verbatim=[("let Some(dst) = safe_join(root, path) else { return write_frame(w, &Response::Error(\"bad path\".into())); };",
+                    "if !safe then\n  return (calls, Copia.Hub.Reply.error \"bad path\")"),
+                   ("let Ok(mut f) = std::fs::File::open(&dst) else { return write_frame(w, &Response::Error(\"not found\".into())); };",
+                    "calls := calls ++ [GCall.open]\nlet some f := file | return (calls, Copia.Hub.Reply.error \"not found\")"),
+                   ("let m = match f.metadata() { Ok(m) if m.is_file() => m, _ => return write_frame(w, &Response::Error(\"not found\".into())), };",
+                    "calls := calls ++ [GCall.stat]\nif !is_file then\n  return (calls, Copia.Hub.Reply.error \"not found\")\nlet m_len := f.length"),
+                   ("let mut hasher = blake3::Hasher::new();", "calls := calls ++ [GCall.hashStart]\nlet mut hashed : List Chunk := []"),
+                   ("std::io::copy(&mut f, &mut hasher)?;", "for chunk in f do\n  hashed := hashed ++ [chunk]\n  calls := calls ++ [GCall.hashRead]\ncalls := calls ++ [GCall.hashEof]"),
+                   ("let hash = *hasher.finalize().as_bytes();", "let hash := hashOf hashed"),
+                   ("std::io::Seek::seek(&mut f, std::io::SeekFrom::Start(0))?;", ""),
+                   ("write_frame(w, &Response::Content { len: m.len(), hash })?;", "let header := (m_len, hash)"),
+                   ("std::io::copy(&mut (&mut f).take(m.len()), w)?;", "let mut sent : List Chunk := []\nfor chunk in f.take m_len do\n  sent := sent ++ [chunk]\n  calls := calls ++ [GCall.sendRead]\ncalls := calls ++ [GCall.sendDone]"),
+                   ("w.flush()", "return (calls, Copia.Hub.Reply.content header.1 header.2 sent)")]),
     dict(group="hubput", file="src/bin/copia/serve.rs", name="handle_delete", sig=None,
          lean="def handleDelete (safe : Bool) (expected cur_dst : Option Hash) : List Call × Copia.Hub.Reply Hash := Id.run do\n"
               "  let mut calls : List Call := []",
@@ -1333,7 +1356,7 @@ GROUP_HEAD = {
     "scan": ("import Copia.Model.ScanSupport", "open Copia.ScanSupport (StatRes)"),
     "codec": ("import Copia.Model.Codec\nimport Copia.Gen.Decisions", "open Copia.Codec"),
     "wire": ("import Copia.Model.Hub\nimport Copia.Model.WireSupport", "open Copia.WireSupport (FrameRes)\nopen Copia.Hub (Req Reply Session Exit HTree)"),
-    "hubput": ("import Copia.Model.HubTrace\nimport Copia.Model.Hub", "open Copia.HubConc (Call Chunk Hash)"),
+    "hubput": ("import Copia.Model.HubTrace\nimport Copia.Model.HubGetSolo\nimport Copia.Model.Hub", "open Copia.HubConc (Call Chunk Hash)\nopen Copia.HubGet (GCall)"),
     "deliver": ("import Copia.Model.Deliver", "open Copia.Deliver (DStep)"),
     "crash": ("import Copia.Model.Crash", "open Copia.Crash (Side FsStep)"),
     "delta": ("import Copia.Model.DeltaSupport",
